@@ -731,6 +731,8 @@ class ADCResponse(APCI):
 
     def to_knx(self) -> bytearray:
         """Serialize to KNX/IP raw data."""
+        if not 0 <= self.channel <= DPTBinary.APCI_BITMASK:
+            raise ConversionError("Channel out of range.")
         payload = struct.pack("!BBH", self.channel, self.count, self.value)
 
         return encode_cmd_and_payload(
@@ -773,6 +775,8 @@ class ADCRead(APCIRequest[ADCResponse]):
 
     def to_knx(self) -> bytearray:
         """Serialize to KNX/IP raw data."""
+        if not 0 <= self.channel <= DPTBinary.APCI_BITMASK:
+            raise ConversionError("Channel out of range.")
         payload = struct.pack("!BB", self.channel, self.count)
 
         return encode_cmd_and_payload(
@@ -2755,6 +2759,8 @@ class UserManufacturerInfoResponse(APCI):
 
     def to_knx(self) -> bytearray:
         """Serialize to KNX/IP raw data."""
+        if len(self.data) != 2:
+            raise ConversionError("Data must be 2 octets.")
         payload = struct.pack("!B2s", self.manufacturer_id, self.data)
 
         return encode_cmd_and_payload(self.CODE, appended_payload=payload)
@@ -3745,6 +3751,8 @@ class PropertyValueWrite(APCI):
         """Serialize to KNX/IP raw data."""
         if not 0 <= self.count <= 0xF:
             raise ConversionError("Count out of range.")
+        if not 0 <= self.start_index <= 0xFFF:
+            raise ConversionError("Start index out of range.")
 
         size = len(self.data)
         payload = struct.pack(
@@ -3842,6 +3850,8 @@ class PropertyValueResponse(APCI):
         """Serialize to KNX/IP raw data."""
         if not 0 <= self.count <= 0xF:
             raise ConversionError("Count out of range.")
+        if not 0 <= self.start_index <= 0xFFF:
+            raise ConversionError("Start index out of range.")
 
         size = len(self.data)
         payload = struct.pack(
@@ -3911,6 +3921,8 @@ class PropertyValueRead(APCIRequest[PropertyValueResponse]):
         """Serialize to KNX/IP raw data."""
         if not 0 <= self.count <= 0xF:
             raise ConversionError("Count out of range.")
+        if not 0 <= self.start_index <= 0xFFF:
+            raise ConversionError("Start index out of range.")
 
         payload = struct.pack(
             "!BBBB",
